@@ -8,12 +8,14 @@ git -C /repo worktree add --detach $W HEAD >/dev/null 2>&1 || exit 2
 trap 'git -C /repo worktree remove --force $W >/dev/null 2>&1' EXIT
 DEMO=$(cat $D/demo_path.txt)
 PKG=$(dirname $DEMO)
+DEMOCMD=$(python3 -c "import json;print(json.load(open('$D/meta.json')).get('demo_cmd',''))" | sed 's#cd /tmp/wt_[A-Za-z0-9_]* *&& *##; s#/tmp/wt_[A-Za-z0-9_]*/##g')
+case "$DEMOCMD" in "go test"*) ;; *) DEMOCMD="go test -count=1 ./$PKG/ -run SeedDemo|Seed";; esac
 PKGS=$(python3 -c "import json;print(' '.join('./'+p.replace('github.com/snapcore/snapd/','').strip('./')+'/' for p in json.load(open('$D/meta.json'))['touched_packages']))")
 cd $W
 cp $D/zz_seed_demo_test.go $W/$DEMO
-echo "== clean tree demo (must pass)"; go test -count=1 ./$PKG/ -run 'SeedDemo|Seed' 2>&1 | tail -3
+echo "== clean tree demo (must pass): $DEMOCMD"; sh -c "$DEMOCMD" 2>&1 | tail -3
 rm $W/$DEMO
 git apply $D/patch.diff || { echo "PATCH DOES NOT APPLY"; exit 1; }
 echo "== build + existing tests with patch (must pass): $PKGS"; go build ./... 2>&1 | tail -3; go test -count=1 $PKGS 2>&1 | tail -5
 cp $D/zz_seed_demo_test.go $W/$DEMO
-echo "== patched demo (must fail)"; go test -count=1 ./$PKG/ -run 'SeedDemo|Seed' 2>&1 | tail -4
+echo "== patched demo (must fail)"; sh -c "$DEMOCMD" 2>&1 | tail -4
